@@ -38,4 +38,149 @@ def c04(tier):
     return c
 
 
-CHECKS = {"C03": c03, "C04": c04}
+
+def _topo(prop, mid, tier, q, t):
+    c = Check(prop, "topo", mid, tier)
+    c.wall_budget = wall(tier, q, t)
+    c.workers = int(os.environ.get("HWSIM_WORKERS", "16"))
+    c.real_components = REAL_ALL
+    c.stubbed_components = ["none (topologies come from synthetic strings and XML files; no OS call is involved)"]
+    c.assumptions = ASSUME + ["allocator failure is not injected (not named by the statement; many unchecked mallocs in hwloc)"]
+    return c
+
+
+def c01(tier):
+    c = _topo("C01", 1, tier, 40, 1500)
+    c.rule = ("one evaluation = one configure/load history (per-type filter assignment incl. refused ones, flag word incl. illegal ones, "
+              "source = generated synthetic string or corpus XML via file or buffer, refused calls after load) followed by the independent "
+              "well-formedness checker and hwloc_topology_check(); distinct_nontrivial = distinct canonical dumps of successfully loaded topologies")
+    return c
+
+
+def c02(tier):
+    c = _topo("C02", 2, tier, 60, 1800)
+    c.rule = ("one evaluation = one seeded history of 3-40 modifying calls (valid and invalid arguments) on a loaded topology; after every "
+              "step: full canonical dump, independent WF checker + hwloc_topology_check(), unchanged-on-documented-error, gp_index and "
+              "userdata stability; distinct_nontrivial = distinct (canonical dump after an op, op kind) pairs")
+    return c
+
+
+def c08(tier):
+    c = _topo("C08", 8, tier, 60, 1800)
+    c.rule = ("one evaluation = one history with restrict weighted up (all 32 flag words + an unknown bit; sub/super/disjoint/infinite sets) "
+              "on topologies carrying Misc and I/O objects; every restrict is judged by the relational before/after oracle keyed by gp_index; "
+              "distinct_nontrivial = distinct (canonical dump after an op, op kind) pairs")
+    return c
+
+
+
+def c10(tier):
+    c = Check("C10", "bind", 10, tier)
+    c.wall_budget = wall(tier, 50, 1200)
+    c.det_seeds = 64 if tier == "quick" else 400
+    c.rule = ("one evaluation = one seeded run: a topology (synthetic string, corpus XML file, or x86 discovery on the model's CPUs) loaded "
+              "foreign / with IS_THISSYSTEM / with HWLOC_THISSYSTEM=1, the model kernel shaped after it (CPUs offline or disallowed, a node "
+              "without memory), then 6-80 binding calls on it, on a dup'ed and on re-loaded replicas, every call judged by clauses (1)-(6) of "
+              "DESIGN.md C10 against what the model kernel received; distinct_nontrivial = number of distinct (entry point, argument class, "
+              "flag word, policy, result/errno, environment, process class) tuples reached (hash set merged over workers); trivial = anything "
+              "that repeats a tuple already seen")
+    c.real_components = ["hwloc/bind.c (validation, fix-ups, dispatch, dummy hooks) from the /repo working tree (ASan+UBSan, asserts on)",
+                         "hwloc/topology-linux.c binding hooks: cpu_set_t / nodemask conversion, kernel cpumask and MAX_NUMNODES sizing loops, "
+                         "/proc/<pid>/task walk (real procfs), MPOL_PREFERRED_MANY fallback: real code",
+                         "hwloc/topology-x86.c look_procs bind-per-PU/restore (real cpuid instruction, model CPUs)",
+                         "hwloc synthetic / XML back-ends, hwloc_topology_dup, include/hwloc/helper.h conversions, libc, libxml2"]
+    c.stubbed_components = ["the kernel: sched_setaffinity, sched_getaffinity, sched_getcpu, pthread_setaffinity_np, pthread_getaffinity_np, "
+                            "syscall(set_mempolicy|get_mempolicy|mbind|migrate_pages|move_pages), /sys/devices/system/{cpu,node}/possible, "
+                            "/proc/<tid>/stat, sysconf(_SC_NPROCESSORS_*) are served by hwsim/bind/kmodel.cc under --wrap; the real kernel is never "
+                            "asked about binding"]
+    c.assumptions = ASSUME + [
+        "the clause 'on the running system' is decided against the model kernel (fidelity to sched_setaffinity(2), set_mempolicy(2), mbind(2), "
+        "get_mempolicy(2) as implemented in kmodel.cc is trusted), not against Linux",
+        "hwloc caches the probed kernel cpumask size, MAX_NUMNODES and the MPOL_PREFERRED_MANY verdict in statics: they are fixed per worker "
+        "process (20 process classes) and probed once per process in an unlogged warm-up that applies clauses (2) and (5)",
+        "one calling thread plus one parked helper thread; pids other than the process itself are not used; HWLOC_TOPOLOGY_FLAG_THISSYSTEM_ALLOWED_RESOURCES "
+        "and hwloc_topology_set_pid() are not used (they read the sandbox's real cgroup / another process)",
+        "native discovery of the sandbox (components linux / linux,x86) is only checked for clause (6); what it discovers is not logged",
+        "allocator failure is not injected (not in the statement)"]
+    return c
+
+CHECKS = {"C01": c01, "C02": c02, "C03": c03, "C04": c04, "C08": c08, "C10": c10}
+
+
+# ------------------------------------------------------------------------------------------------ C17 (scheduler machine)
+def c17(tier):
+    import json
+    c = Check("C17", "sched", 17, tier)
+    c.wall_budget = wall(tier, 90, 2400)
+    c.det_seeds = 64 if tier == "quick" else 400
+    c.run_timeout = 300
+    c.rule = ("one evaluation = one seeded run of the baton scheduler over hwloc compiled with -fsanitize=thread instrumentation: workload A = "
+              "a topology (synthetic string or corpus XML, file or buffer) + a seeded modification history (half of the runs: none) + "
+              "hwloc_topology_refresh(), then 2-4 reader tasks x 10-40 consulting calls interleaved by the plan's schedule (PCT with 1-5 "
+              "change points | random switch with p in 1/20..1/5000 per instrumented access | switch at wrapped libc calls only); workload B = "
+              "2-4 tasks each running init/configure/load (synthetic | XML file | XML buffer | HWLOC_FSROOT snapshot)/modify/export/dup/"
+              "destroy histories on their own topologies. Oracles: happens-before race detector (vector clocks; edges = task create/join, "
+              "mutex unlock->lock; byte-exact shadow reset at malloc/free) - heap race or static cell written with differing values = "
+              "violation, idempotent once-initialisations of static environment caches are listed by symbol in idempotent_static_inits; "
+              "per-op result digests equal a single-threaded replay; topology digest unchanged by the reader phase; deadlock detection. "
+              "distinct_nontrivial = number of distinct (workload, source(s), interleaving signature) triples, the signature being the hash of "
+              "the executed sequence of (task, function in which it was switched out); a run is trivial/duplicate when it repeats such a "
+              "triple (e.g. a schedule whose change points fall after the end of the phase). Runs marked selftest=1 in their plan are the "
+              "in-batch sensitivity self-test (workload A WITHOUT the refresh: documented as unsafe) and never produce a verdict")
+    c.real_components = ["all of hwloc (22 sources of the /repo working tree + the static inline helpers of include/hwloc/helper.h compiled "
+                         "into the driver): real code, every load/store/function entry instrumented, asserts on",
+                         "libc and libxml2: real but uninstrumented; a call into them is atomic under the baton",
+                         "real pthreads (one per task, thread-local errno and uselocale() as in production)"]
+    c.stubbed_components = ["thread scheduling: decided by the simulator (exactly one task holds the baton; who runs next is a function of the plan's "
+                            "sched line and the deterministic step index), never by the OS",
+                            "pthread_mutex_lock/unlock: wrapped (ownership and blocking are modelled by the scheduler; the real call is made once the "
+                            "model grants the mutex)",
+                            "malloc/calloc/realloc/free/strdup/memcpy/memmove/memset/qsort/getenv: wrapped as pre-emption points and access-log "
+                            "entries, then forwarded to libc; the allocator is interposed process-wide so the shadow is reset for libc/libxml2 blocks too",
+                            "hwloc's static storage is put back to its load-time image before every run (each run starts like a fresh process)"]
+    c.assumptions = ASSUME + [
+        "the schedule search is sequentially consistent: weak-memory effects are not explored; the race oracle reasons at C11 level "
+        "(two unordered conflicting accesses = race, whatever order they ran in)",
+        "accesses made inside uninstrumented libc/libxml2 on hwloc's behalf are not observed, except the wrapped "
+        "memcpy/memmove/memset/qsort/strdup whose ranges are logged (snprintf/strcpy/sscanf/read targets are not)",
+        "static-cell rule (DESIGN.md C17): a race on static storage whose conflicting writes all store the same value into a cell that only "
+        "moves from its initial value to that value is listed, not reported",
+        "<= 4 tasks, synthetic sources <= 256 PUs, snapshots are the small ones of tests/hwloc/linux plus three wide ones; "
+        "hwloc_topology_dup and hwloc_shmem_topology_write are not in the reader alphabet (the statement does not list them as consulting)",
+        "modifications known to trip defects recorded under other properties are avoided in the set-up histories "
+        "(cpukinds_register after restrict, memattr values with object initiators, distances grouping)"]
+    base_execute = c.execute
+
+    def execute():
+        rc = base_execute()
+        path = os.path.join(os.path.dirname(os.path.dirname(os.path.abspath(__file__))), "evidence", "C17.json")
+        try:
+            with open(path) as f:
+                ev = json.load(f)
+            cov = ev["coverage"]
+            cnt = cov.get("counters", {})
+        except (OSError, ValueError, KeyError):
+            return rc
+        runs, found = cnt.get("selftest.runs", 0), cnt.get("selftest.races_found", 0)
+        cov["sensitivity_selftest"] = {"what": "workload A without hwloc_topology_refresh() after distances_add + memattr_set_value + restrict "
+                                               "(documented as unsafe): the race oracle must report heap races", "runs": runs, "runs_with_heap_race": found}
+        cov["idempotent_static_inits"] = {k[len("idempotent_static_init."):]: v for k, v in sorted(cnt.items()) if k.startswith("idempotent_static_init.")}
+        cov["distinct_interleavings"] = cov.get("distinct_sets", {}).get("interleaving", {}).get("count", 0)
+        with open(path, "w") as f:
+            json.dump(ev, f, indent=1, sort_keys=False)
+            f.write("\n")
+        if runs == 0:
+            c.log("WARNING: no sensitivity self-test run in this batch (too few runs)")
+        elif found == 0:
+            c.log("SENSITIVITY SELF-TEST FAILED: %d unrefreshed runs, no heap race reported: the race oracle is blind" % runs)
+            print("ERROR: C17 sensitivity self-test: %d runs of workload A without refresh produced no race report" % runs)
+            return max(rc, 2)
+        else:
+            c.log("sensitivity self-test: %d/%d unrefreshed runs reported heap races; idempotent static inits: %s" % (found, runs, ", ".join(cov["idempotent_static_inits"]) or "none"))
+        return rc
+
+    c.execute = execute
+    return c
+
+
+CHECKS["C17"] = c17
